@@ -6,7 +6,7 @@ def run(tier, seed, update_ledger=False, only=None, jobs=None):
     hs = [h for h in pairing_harnesses(tier) if not only or only in h.hid]
     return run_check("C04", hs, tier=tier, seed=seed, update_ledger=update_ledger, jobs=jobs,
                      unbounded_in=["all noise values, context values", "all transforms (uninterpreted row-wise bijection with the C02 contract)", "all embedding networks (uninterpreted row-wise map)"],
-                     bounded_in={"context rows": "0..2 (quick) / 0..3", "num_samples": "1,3 (quick) / 1..3"},
+                     bounded_in={"context rows": "0..2 (quick) / 0..3", "num_samples": "1,3 (quick) / 1..3", "batch_size path": "(rows, n, batch_size) in {(2,3,2), (0,3,2), (2,2,1)} quick; four more thorough"},
                      not_decided=["the statistical clause (empirical distribution of samples converges to the density): derived from randn ~ N(0,1) and the change-of-variables lemma, not tested"],
                      assumptions=["torch.randn draws are i.i.d. standard normal (external contract): which noise row is paired with which (context row, draw) is therefore immaterial as long as the pairing is injective",
                                   "the transform satisfies its C02 contract (inverse undoes forward, negated log-det), the base is StandardNormal (its closed form is C05)"])
